@@ -94,6 +94,15 @@ CLAIMED["C13"] = (
     "DESIGN.md 3.4",
 )
 
+CLAIMED["C14"] = (
+    "netsim",
+    "deterministic simulation of a two-party TSIG exchange: the real code against an independent RFC 8945 peer (hmac/hashlib, own wire walker) with skewed clocks, a corrupting channel (single-bit flips, stripped/moved/duplicated TSIG), identity faults and envelope faults; TSIG paths of udp/tcp/inbound_xfr over the simulated network",
+    "exploration",
+    "Per run: seeded algorithm (all nine incl. truncated variants and HMAC-MD5), key, mixed-case key name, fudge, 48-bit times, original id, other data. The real code's MAC must equal the reference HMAC for requests, responses bound to a request MAC and every envelope of a multi-message stream it signs; reference-signed genuine messages and streams (any subset of intermediates unsigned) must verify iff |skew| <= fudge (BadTime otherwise); no single-bit flip (250 sampled per message in quick, all bits for a share of thorough runs; TSIG RR fixed fields always swept) may verify outside the structurally exempt positions (header id, case bit of letters in the key/algorithm names); identity and structure faults raise the documented classes; dropped/duplicated/reordered/flipped envelopes fail no later than the next signed envelope; tampered replies are never returned by udp/tcp; a signed transfer with an altered or unsigned tail is rejected with the zone untouched.",
+    "Trusted: simkit/reftsig.py (independent implementation written from RFC 8945), the exemption computation in checks/c14.py. GSS-TSIG is not covered (needs an external GSSAPI context). Dropping the tail of a stream so that it still ends on a signed envelope is not detectable by TSIG and is not counted.",
+    "DESIGN.md 3.5",
+)
+
 PENDING_REASON = "check under construction in this session (DESIGN.md section 8 build order); not claimed until its quick command is green on the unchanged tree"
 ALL = [f"C{i:02d}" for i in range(1, 21)]
 
